@@ -15,7 +15,8 @@ from koala.graph_utils import make_dual, vertices_to_polygon, remove_trailing_ed
 DRIVERS = ("c13",)
 MODEL_TARGETS = ["Model/Lattice.vo", "Model/Dual.vo", "Model/Truncate.vo"]
 TARGETS = ["Proofs/DualFacts.vo", "Proofs/TruncateFacts.vo", "Proofs/TruncateDegrees.vo",
-           "Proofs/TruncateFacesGeom.vo", "Proofs/TruncateFacesRot.vo", "Proofs/TruncateFaces.vo"]
+           "Proofs/TruncateFacesGeom.vo", "Proofs/TruncateFacesRot.vo", "Proofs/TruncateFaces.vo",
+           "Proofs/TruncateFacesWinding.vo"]
 LEVEL = "proof"
 TRUST = [
     "hand-written Gallina models coq/Model/Dual.v (make_dual over Q) and coq/Model/Truncate.v (vertices_to_polygon, statement by statement, in integer units of 1/(3*scale)): "
@@ -790,7 +791,7 @@ def coq_crosscheck(ctx, built, outs, max_v=40):
                 sel = op["sel"]
                 vs = "None" if sel is None else f"(Some {nl([sel] if np.isscalar(sel) else list(sel))})"
                 m = parse_trunc(toks)
-                g(f"option_map lat3 (vertices_to_polygon {L} {vs})", "None" if "err" in m else f"Some {lat3([(x + 1, y) for x, y in m['pos']], m['edges'], m['cr'])}")
+                g(f"option_map lat3 (vertices_to_polygon {L} {vs})", "None" if "err" in m else f"Some {lat3(m['pos'], m['edges'], m['cr'])}")
                 n_ops["trunc"] += 1
     res = ctx.res
     res.extra["extraction_crosscheck_goals_vm_compute"] = X.compile_goals("c13", "Model.Lattice Model.Dual Model.Truncate", body, "c13", stdlib="List ZArith Bool QArith")
